@@ -11,6 +11,7 @@ Exit codes: 0 held / 1 violation(s) printed / 2 harness error.
 from __future__ import annotations
 
 import argparse
+import shutil
 import hashlib
 import json
 import math
@@ -64,6 +65,8 @@ class Part:
     summarize: Optional[Callable[[Any], Any]] = None
     setup: Optional[Callable[[], None]] = None  # per-process initialisation
     shrink: bool = True
+    # coverage-guided part (vlib/fuzzdrv.py): {"instrument": [package prefixes], "modules": [modules to import instrumented]}
+    fuzz: Optional[Dict[str, Any]] = None
 
 
 class HarnessError(Exception):
@@ -175,6 +178,7 @@ class Stats:
         self.excluded = 0
         self.budget_exhausted = False
         self.harness_error = None
+        self.fuzz = []  # one record per coverage-guided campaign (shard)
 
     def add(self, part: Part, case, res: Result):
         self.cases += 1
@@ -221,6 +225,7 @@ class Stats:
         self.excluded += other.excluded
         self.budget_exhausted |= other.budget_exhausted
         self.harness_error = self.harness_error or other.harness_error
+        self.fuzz = list(getattr(self, "fuzz", [])) + list(getattr(other, "fuzz", []))
 
 
 def pick_samples(samples, k=8):
@@ -276,8 +281,52 @@ def _hyp_settings(n, shrink=False):
     )
 
 
-def run_part(part: Part, tier: str, seed: int, n: int, wall_budget: float) -> Stats:
+def run_fuzz_part(part: Part, modname: str, tier: str, seed: int, n: int, wall_budget: float) -> Optional[Stats]:
+    """Coverage-guided campaign in a subprocess (vlib/fuzzdrv.py); None if atheris cannot be imported."""
+    import pickle
+    import re
+    import subprocess
+
+    root = env.scratch_dir(f"fuzz-{part.name}-{seed}")
+    out = os.path.join(root, "stats.pkl")
+    cmd = [sys.executable, "-W", "ignore", "-m", "vlib.fuzzdrv", modname, part.name, tier, str(seed), str(n), out, os.path.join(root, "corpus")]
+    try:
+        r = subprocess.run(cmd, capture_output=True, text=True, timeout=wall_budget + 120, cwd=VERIF, errors="replace")
+        rc, err, timed_out = r.returncode, r.stderr, False
+    except subprocess.TimeoutExpired as e:
+        rc, err, timed_out = 0, (e.stderr or b"").decode(errors="replace") if isinstance(e.stderr, bytes) else (e.stderr or ""), True
+    if "No module named 'atheris'" in err and not os.path.exists(out):
+        return None
+    if not os.path.exists(out):
+        raise HarnessError(f"coverage-guided driver for part {part.name} produced no statistics (rc={rc}): {err[-1500:]}")
+    with open(out, "rb") as f:
+        st = pickle.load(f)
+    if st.harness_error:
+        return st
+    if rc != 0:
+        raise HarnessError(f"coverage-guided driver for part {part.name} ended with rc={rc}: {err[-1500:]}")
+    info = dict(getattr(st, "fuzz_info", {}))
+    m = re.findall(r"cov: (\d+) ft: (\d+) corp: (\d+)", err)
+    if m:
+        info.update(edges_covered=int(m[-1][0]), features=int(m[-1][1]), corpus_size=int(m[-1][2]))
+    m0 = re.search(r"INITED cov: (\d+) ft: (\d+)", err)
+    if m0:
+        info.update(edges_covered_by_initial_corpus=int(m0.group(1)))
+    info["seed"] = seed
+    st.budget_exhausted |= timed_out
+    st.fuzz = [info]
+    shutil.rmtree(root, ignore_errors=True)
+    return st
+
+
+def run_part(part: Part, tier: str, seed: int, n: int, wall_budget: float, modname: Optional[str] = None) -> Stats:
+    if part.fuzz is not None and modname is not None:
+        fst = run_fuzz_part(part, modname, tier, seed, n, wall_budget)
+        if fst is not None:
+            return fst
     st = Stats()
+    if part.fuzz is not None:
+        st.fuzz = [{"fallback": "atheris not importable: the part ran as a plain Hypothesis part", "seed": seed}]
     t0 = time.time()
     if part.setup:
         part.setup()
@@ -326,7 +375,7 @@ def _worker(args):
                         yield c
 
             part = Part(**{**part.__dict__, "enumerate": sl})
-        st = run_part(part, tier, seed, n, wall_budget)
+        st = run_part(part, tier, seed, n, wall_budget, modname)
         return st
     except HarnessError as e:
         st = Stats()
@@ -474,7 +523,7 @@ def _main(mod, prop, args, t_start):
         n = int(max(1, round(part.budget.get(tier, part.budget.get("quick", 100)) * args.scale)))
         nsh = part.shards.get(tier, 1)
         if nsh <= 1:
-            st = run_part(part, tier, args.seed, n, wall_budget)
+            st = run_part(part, tier, args.seed, n, wall_budget, mod.__name__ if mod.__name__ != "__main__" else mod.__spec__.name)
         else:
             ctx = mp.get_context("spawn")
             per = max(1, n // nsh)
@@ -498,6 +547,19 @@ def _main(mod, prop, args, t_start):
             "exhaustive": bool(part.exhaustive.get(tier, False)) and not st.budget_exhausted,
             "budget_exhausted": st.budget_exhausted,
         }
+        if getattr(st, "fuzz", None):
+            fz = st.fuzz
+            per_part[part.name]["coverage_guided"] = {
+                "engine": "atheris/libFuzzer -> hypothesis fuzz_one_input -> part strategy -> evaluate",
+                "campaigns": len(fz),
+                "executions": sum(i.get("executions", 0) for i in fz),
+                "inputs_decoded_to_a_case": sum(i.get("decoded", 0) for i in fz),
+                "edges_covered_max": max([i.get("edges_covered", 0) for i in fz] or [0]),
+                "edges_covered_by_initial_corpus_max": max([i.get("edges_covered_by_initial_corpus", 0) for i in fz] or [0]),
+                "corpus_size_total": sum(i.get("corpus_size", 0) for i in fz),
+                "instrumented_modules": sorted({m for i in fz for m in i.get("instrumented", [])}),
+                "fallbacks": [i["fallback"] for i in fz if "fallback" in i][:1],
+            }
         floor = max(2, int(part.min_nontrivial.get(tier, 2) * min(1.0, args.scale)))
         if len(st.nontrivial) < floor and not st.budget_exhausted:
             floor_problems.append(
